@@ -70,7 +70,10 @@ def run(prog):
             for (bi, si, st) in stores:
                 flds, callees, _ = backward_slice(f, st["rv"]["a"] if "a" in st["rv"] else None)
                 fresh = "std::time::Instant::now" in callees and (KAN, "last_tick") not in flds
-                if f.dominates(bi, tb) and fresh:
+                # ... and that clock reading is taken after the thread woke up, not before it went to sleep
+                now_blocks = _call_blocks_in_slice(f, st["rv"]["a"] if "a" in st["rv"] else None, "std::time::Instant::now")
+                after_wake = bool(now_blocks) and all(nb in path and f.dominates(rb, nb) for nb in now_blocks)
+                if f.dominates(bi, tb) and fresh and after_wake:
                     good = True
             res.inst("wake/reset-before-ticks", where="%s:%s" % (f.file, tt.get("ln")), ok=good)
             res.oblige(good)
@@ -85,3 +88,22 @@ def run(prog):
         if not tks:
             res.viol("wake/no-ticks", f.loc, "no handle_time_ticks on the wake-up path")
     return res
+
+
+def _call_blocks_in_slice(f, operand, callee):
+    """blocks of the calls to `callee` on the backward slice of operand"""
+    from kq.core import callee_name, is_place, rvalue_operands
+    out, seen, work = set(), set(), [operand]
+    while work:
+        o = work.pop()
+        if not is_place(o) or o["l"] in seen:
+            continue
+        seen.add(o["l"])
+        for (bb, idx, kind, payload) in f.defs().get(o["l"], []):
+            if kind == "assign":
+                work.extend(rvalue_operands(payload))
+            elif kind == "call":
+                if callee_name(payload) == callee:
+                    out.add(bb)
+                work.extend(payload["args"])
+    return out
